@@ -8,7 +8,8 @@
    harness checks those oracles numerically on the implementation (interior angles from tangent vectors, enclosed
    area by a triangle fan, common region by planar clipping). *)
 From Coq Require Import Reals ZArith List Bool Lra Lia PrimFloat.
-From PR Require Import Base.Num Base.RNum Base.F64 Model.SphPoly Proofs.C17_area Proofs.C17_setops Proofs.C17_walk.
+From PR Require Import Base.Num Base.RNum Base.F64 Model.SphPoly Model.SphTrigR Gen.GenC17
+     Proofs.C17_area Proofs.C17_setops Proofs.C17_walk Proofs.C17_gen.
 Import ListNotations.
 Open Scope R_scope.
 
@@ -35,6 +36,13 @@ Proof. exact area_inverse_4pi. Qed.
 Print Assumptions C17_area_inverse_4pi.
 Example C17_inverse_ex : nondegenerate nat (fun x _ => INR x) [0%nat; 1%nat; 2%nat].
 Proof. unfold nondegenerate, windows. cbn. repeat (apply Forall_cons; [cbn; lra|]). apply Forall_nil. Qed.
+
+(* history on one object: invert() twice restores the vertex list, hence the area (after invert() the polygon is the
+   inverse: C17_area_inverse_4pi applies to it) *)
+Theorem C17_invert_twice : forall (V : Type) (az : V -> V -> R) (vs : list V) (r : R),
+  inverse (inverse vs) = vs /\ area RO V az PI (inverse (inverse vs)) r = area RO V az PI vs r.
+Proof. intros. unfold inverse. rewrite rev_involutive. split; reflexivity. Qed.
+Print Assumptions C17_invert_twice.
 
 (* additivity along the diagonal v0--vk of the polygon v0 :: l1 ++ vk :: l2.  Hypotheses, all about the oracle:
    az_range       every azimuth lies in (-pi, pi]  (the range of arctan2);
@@ -138,6 +146,55 @@ Theorem C17_next_intersection_after : forall (side : bool) (Arr : @arrangement R
   exists y, In y (res_list Arr side e others) /\ xid y = k /\ xd side y <= xd side x.
 Proof. exact next_intersection_after. Qed.
 Print Assumptions C17_next_intersection_after.
+
+(* ---------- the tie by translation: coq/Gen/GenC17.v is regenerated from /repo's SphPolygon.area and
+   Arc._convert_to_angle on every run; these statements fail to type-check / prove when the source changes shape *)
+
+(* the vectorised body of SphPolygon.area, for one cyclic window (a, p, b) of (lon, lat) vertices, is the model's
+   [alpha] with the oracle az := the arctan2 expression [az_lonlat] *)
+Theorem C17_gen_area_alpha : forall (T : Type) (OP : ops T) (sin cos : T -> T) (arctan2 : T -> T -> T) (pi : T) (a p b : T * T),
+  gen_area_alpha OP sin cos arctan2 pi (snd a) (snd p) (snd b) (fst a) (fst p) (fst b)
+  = alpha OP (T * T) (az_lonlat OP sin cos arctan2) pi a p b.
+Proof. exact @gen_area_alpha_is_alpha. Qed.
+Print Assumptions C17_gen_area_alpha.
+(* the return statement of SphPolygon.area over sum(alpha) and len(self.lon) is the model's area *)
+Theorem C17_gen_area_total : forall (T : Type) (OP : ops T) (sin cos : T -> T) (arctan2 : T -> T -> T) (pi : T)
+    (vs : list (T * T)) (r la lp lb oa op ob : T),
+  gen_area_total OP sin cos arctan2 pi la lp lb oa op ob
+    (fsum OP (alphas OP (T * T) (az_lonlat OP sin cos arctan2) pi vs)) (Z.of_nat (length vs)) r
+  = area OP (T * T) (az_lonlat OP sin cos arctan2) pi vs r.
+Proof. exact @gen_area_total_is_area. Qed.
+Print Assumptions C17_gen_area_total.
+
+(* the hypothesis az_range is DISCHARGED for the arctan2 expression over the reals (atan2R built from Coq's atan) *)
+Theorem C17_az_range_atan2 : az_range (R * R) az_real.
+Proof. exact az_real_range. Qed.
+Print Assumptions C17_az_range_atan2.
+Theorem C17_area_additive_diagonal_atan2 : forall (v0 vk : R * R) (l1 l2 : list (R * R)) (r : R),
+  l1 <> [] -> l2 <> [] ->
+  inside_at (R * R) az_real v0 (last l2 vk) (hd vk l1) vk ->
+  inside_at (R * R) az_real vk (last l1 v0) (hd v0 l2) v0 ->
+  area RO (R * R) az_real PI (v0 :: l1 ++ vk :: l2) r =
+    area RO (R * R) az_real PI (v0 :: l1 ++ [vk]) r + area RO (R * R) az_real PI (vk :: l2 ++ [v0]) r.
+Proof. intros. apply area_additive_diagonal; auto. exact az_real_range. Qed.
+Print Assumptions C17_area_additive_diagonal_atan2.
+Theorem C17_area_rotation_atan2_if : forall (rho : R * R -> R * R) (vs : list (R * R)) (r : R),
+  rotation_invariant (R * R) az_real rho ->
+  area RO (R * R) az_real PI (map rho vs) r = area RO (R * R) az_real PI vs r.
+Proof. intros. apply area_rotation_if; auto. exact az_real_range. Qed.
+Print Assumptions C17_area_rotation_atan2_if.
+
+(* Arc._convert_to_angle (the repaired turn direction): unsnapped, every cosine strictly between -1 and 1 gives the
+   non-zero angle acos val, so np.sign of Arc.angle(..., snap=False) is never 0 for arcs that are not (anti)parallel *)
+Theorem C17_unsnapped_angle_keeps_sign : forall val : R, -1 < val < 1 ->
+  gen_convert_to_angle RO acos PI eps7 val false = acos val /\ 0 < acos val < PI.
+Proof. exact convert_unsnapped. Qed.
+Print Assumptions C17_unsnapped_angle_keeps_sign.
+(* ... whereas the snapped angle (what the edge walk used before the repair) is 0 for a crossing angle that is not 0 *)
+Theorem C17_snapped_angle_refuted : exists val : R, -1 < val < 1 /\ acos val <> 0 /\
+  gen_convert_to_angle RO acos PI eps7 val true = 0.
+Proof. exact convert_snapped_loses_sign. Qed.
+Print Assumptions C17_snapped_angle_refuted.
 
 (* the hypotheses are satisfiable: the crossing tables (Arc.intersection, distances, turn signs, _is_inside) of two
    real triangles A, B -- vertex 1 of A lies inside B, cut off by edge 2 of B -- as captured from the implementation,
